@@ -338,10 +338,11 @@ class C13(Prop):
 
 class C16(Prop):
     cmd = "c16"
-    rule = ("controlled schedules at the hook yield points (before every shared-string registration, before the table dump, save begin/end): exhaustive DFS over all "
-            "interleavings of 2 savers x 1..3 (thorough: 4) strings for equal / disjoint / overlapping string sets and for one workbook shared by reference, both writers; "
+    rule = ("controlled schedules at the hook yield points (before every shared-string registration, before the table dump, save begin/end), one child process per configuration: "
+            "exhaustive DFS over all interleavings of 2 savers x 1..3 (thorough: 5) strings for equal / disjoint / overlapping string sets, one workbook shared by reference, and lazily opened "
+            "workbooks with a never-deserialized sheet (shared and cloned), both writers; 3 savers x 1 string exhaustively in thorough (bounded DFS prefix in quick and for 2 strings); "
             "seeded random/priority schedules for 2-3 savers x 2-8 strings; free-running stress; thorough adds the same stress under ThreadSanitizer and under Miri (8 seeds); "
-            "distinct = distinct interleavings (sequence of saver ids at yield points, per configuration)")
+            "distinct = distinct interleavings (sequence of saver ids granted a step, per configuration)")
     assumptions = ["oracle: text cells and string table of every output, read from the file by a scanner without library code, equal the solo content of that workbook; per-saver index conservation on the hook log",
                    "yield points sit outside every lock region (hook arguments are computed into locals first), so parking cannot manufacture a deadlock; 'no quiescence within 20 s' is reported as inconclusive, not as deadlock",
                    "ThreadSanitizer / Miri reports fail the run; if those toolchains cannot build, the stage is recorded as unavailable and the verdict rests on the controlled schedules"]
